@@ -257,7 +257,12 @@ def oracle(prev, cur, pats):
     def parent_unchanged(k):
         par = parent_of(k)
         return par in L0 and L0.get(par) == L1.get(par)
-    hints["cat"] = {k: ("mode" if only_mode(k) else "link" if involves_link(k) else None) for k in set(D) | set(SD)}
+    def gone_unseen(k):
+        # removed while its directory's record stayed the same, and it did not resolve before either: a stored
+        # filtered listing still has the name and its node is MissingInput before and after
+        return bool(pats) and k in L0 and k not in L1 and parent_unchanged(k) and prev[1].get(k) == "missing"
+    hints["cat"] = {k: ("mode" if only_mode(k) else "link" if involves_link(k) else "stale" if gone_unseen(k) else None) for k in set(D) | set(SD)}
+    hints["file_root"] = L0.get("", ("?",))[0] != "d" and L1.get("", ("?",))[0] != "d" and "" in L0 and "" in L1
     # entries that appeared while the record of their directory stayed the same: a stored filtered listing does not have them
     hints["added_unseen"] = [k for k in D if k not in L0 and parent_unchanged(k)] if pats else []
     hints["removed"] = [k for k in D if k not in L1]
@@ -602,6 +607,8 @@ def judge(chk, sc, records, idx):
                 unlisted |= chk.violation(key_, what, rp(rec, dict(command=cmd)), found_input=True, broken="c12 oracle (detects) on llbuild buildsystem build")
             elif must is False and ran:
                 key_ = "%s-spurious-rerun" % cmd
+                if cmd == "structure" and sc["pats"] and rec["hints"]["file_root"]:
+                    key_ += "-file-root-filtered"
                 what = ("the command with the directory-%s input ran again although " % cmd) + ("nothing beneath the directory changed" if cmd == "tree" else "no entry was added, removed or changed type") + " (%s)" % "; ".join(rec["labels"])
                 unlisted |= chk.violation(key_, what, rp(rec, dict(command=cmd)), found_input=True, broken="c12 oracle (stable) on llbuild buildsystem build")
         tie_ok = (rec["model_T"] == rec["ranT"]) and (rec["model_S"] == rec["ranS"])
